@@ -72,7 +72,19 @@ class C03Scenario(ChangeScenario):
                 continue
             left = any_progress_keys(obj)
             if left:
-                out.append(self.viol(env, 'progress-left', f"object {name} still carries progress records {left}", clause='no-progress'))
+                # the structural pattern of a known defect: the change the record belongs to was taken back while its handler was between
+                # retries - the object is in its last-handled state again (nothing to handle, no cause), the record is never looked at again
+                uid0 = obj['metadata']['uid']
+                last_calls = {}
+                for t, k, p in env.obs:
+                    if k == 'call' and p.get('uid') == uid0 and p.get('reason') in ('create', 'update', 'resume'):
+                        last_calls[p['id']] = p
+                ids_left = {h['id'] for h in self.params['handlers'] if any(h['id'].replace('/', '.') in key for key in left)}
+                reverted = bool(ids_left) and last_handled(obj) == essence_ref(obj) and all(
+                    i in last_calls and last_calls[i]['outcome'].split(',')[0] not in ('ok', 'perm') and essence_ref(last_calls[i]['raw']) != essence_ref(obj)
+                    for i in ids_left)
+                out.append(self.viol(env, 'progress-left', f"object {name} still carries progress records {left}", clause='no-progress',
+                                     pattern='change-reverted-between-retries' if reverted else 'other'))
             E = essence_ref(obj)
             lh = last_handled(obj)
             if lh != E:
@@ -239,6 +251,13 @@ def scenarios(tier: str) -> tuple[list[C03Scenario], list[C03Scenario], list[C03
             for spacing in (20.0, 0.0):
                 for fails in (0, 1, 2):
                     hist.append(build(h, spacing, 6, fails, delays=False, early_user=False, time_dev=False))
+    # an edit that is taken back while the update handler waits for its retry (the object is in its last-handled state again)
+    for back_after in (1.0, 2.0):
+        sc = build([('spec', 'a', 2), ('spec', 'a', 1)], 20.0, 1, 1, delays=False, early_user=False, time_dev=False)
+        params = dict(sc.params)
+        params['user'] = [(1.0, 'create', 'a'), (10.0, 'spec', 'a', 2), (10.0 + back_after, 'spec', 'a', 1)]
+        params['horizon'] = 12.0 + SETTLE + 16
+        hist.append(C03Scenario(**params))
     crash = [build(h, 20.0, hset, 1, kills=True, delays=False, early_user=False, time_dev=False)
              for h in histories(2 if tier == 'quick' else 3) for hset in (1, 2, 3)]
     timing = [build(h, 4.0, hset, 1, grid=2.0) for h in histories(1 if tier == 'quick' else 2) for hset in (1, 2, 3)]
